@@ -197,6 +197,10 @@ func c29Parse(s string) (w, i int, ok bool) {
 }
 
 func bodyC29(c c29Case, x *vkit.Ctx) {
+	// two cases in three: the writers' goroutines linger after releasing one of
+	// the mutexes of GatedWriter / logWriter (lockyield_test.go)
+	lockYield((c.Lines + c.Slow + c.Writers + len(c.Ops)) % 3)
+	defer lockYield(0)
 	switch c.Kind {
 	case 0:
 		c29Gated(c, x)
